@@ -2,6 +2,7 @@
 import common
 import gfpy
 import gen
+import corpus
 from vlib import fmt_list
 
 PID = 'C05'
@@ -34,6 +35,13 @@ def gen_cases(rng, tier, ctx):
             add('decode_data %d,%d' % (latch, b), 'after-latch')
             add('decode_str %d,%d,%d' % (latch, b, rng.below(256)), 'after-latch')
             add('decode_data %d,%d,%d,%d' % (latch, rng.below(4), b, rng.below(256)), 'after-latch')
+    cs += corpus.decoder_cases()
+    cs += [dict(c, cat='rs-corpus') for c in corpus.rs_cases()]
+    for c1 in (128, 191, 192, 207, 208, 127, 0, 255):
+        for b in range(256):
+            add('decode_data 241,%d,%d' % (c1, b), 'eci-designator')
+            add('decode_data 241,%d,%d,%d,66' % (c1, rng.choice([1, 254, 128]), b), 'eci-designator')
+            add('decode_str 241,%d,%d,%d,66' % (c1, b, rng.choice([0, 1, 254, 255])), 'eci-designator')
     for e in (3, 11, 13, 26, 27, 5, 899):
         d = [e + 1] if e <= 126 else [(e - 127) // 254 + 128, (e - 127) % 254 + 1]
         for b in range(256):
